@@ -14,7 +14,7 @@ META = dict(
               "trace validation by TLC of call logs of real btree.Btree instances (exhaustive short call sequences, "
               "TLC-simulated programs, seeded long random programs with delete-heavy phases)",
     level="model_checking",
-    level_text="Every public call is an action of the specification with its result, count and cursor effect; TLC enumerates all "
+    level_text="(Also: what the B-tree reports to its ItemActionTracker must be exactly the items a call added / changed / removed - TrkAgrees.) Every public call is an action of the specification with its result, count and cursor effect; TLC enumerates all "
                "call sequences of the model on tiny domains (invariants: sorted, unique, ids, cursor, range theorem) and validates "
                "each real call log line by line with full contents after every call. Assurance is bounded by the programs run: "
                "all sequences of 2-3 calls behind fixed prefixes at slot length 2/4, plus seeded random programs for slot lengths 2..24.",
